@@ -114,11 +114,11 @@ def run(ctx):
         # hypotheses of C08_any_bracketing on the tables the loader models build for this file, evaluated with the extracted,
         # proved-sound checkers (TInv: LM/InvCheck.tinv_check; rest = prob and "extension bit only on contexts": LM/FlattenCheck)
         for tok in mout[nset - 1].split():
-            if tok[:4] in ("invP", "invT", "flat"):
+            if tok[:4] in ("invP", "invT", "invR", "flat", "extR"):
                 stats["hyp_" + tok] = stats.get("hyp_" + tok, 0) + 1
-        for kd, nm in (("P", "probing"), ("T", "trie")):
+        for kd, nm in (("P", "probing"), ("T", "trie"), ("R", "rest-probing")):
             toks = mout[nset - 1].split()
-            if ("flat%s=0" % kd) in toks or ("inv%s=0" % kd) in toks:
+            if ("flat%s=0" % kd) in toks or ("inv%s=0" % kd) in toks or ("ext%s=0" % kd) in toks:
                 problems.append(("correspondence:flattening-hypotheses:" + nm,
                                  "the table the %s loader model builds for an estimator-like file does not satisfy the hypotheses of C08_any_bracketing (%s)" % (nm, mout[nset - 1]),
                                  dict(base), False))
